@@ -16,7 +16,7 @@ os.environ.setdefault('LARK_VERIF', '1')      # MANIFEST.hooks.guard (no guarded
 AS_LIMIT = 4 << 30
 
 
-class Timeout(Exception):
+class Timeout(BaseException):    # BaseException: must not be swallowed by an `except Exception` inside the code under test
     pass
 
 
